@@ -218,7 +218,12 @@ Definition dec (n : nat) : bytes := dec_loop (S n) (N.of_nat n) [].
       {{ $change.Cmd }};
       {{ with $stmts := .ReverseStmts }}{{ range $stmts }}{{ printf "--rollback: %s;\n" . }}{{ end }}{{ end }}
       {{- end }}                                                                            *)
-Definition lq_rollback_line (s : bytes) : bytes := s_lq_rollback ++ s ++ s_semi_nl.
+(** the template function [rollback] (fix C17-liquibase-multiline-rollback):
+      "--rollback: " + strings.ReplaceAll(stmt, "\n", "\n--rollback: ") + ";\n"
+    every line of the statement is a rollback comment of its own *)
+Definition lq_prefix_lines (s : bytes) : bytes :=
+  flat_map (fun c => if N.eqb c 10 then 10%N :: s_lq_rollback else [c]) s.
+Definition lq_rollback_line (s : bytes) : bytes := s_lq_rollback ++ lq_prefix_lines s ++ s_semi_nl.
 Definition lq_changeset (now : bytes) (index : nat) (c : mchange) : bytes :=
   s_lq_changeset ++ now ++ s_dash ++ dec (S index) ++ s_nl ++
   (if nonempty (c_comment c) then s_lq_comment ++ c_comment c else []) ++ s_nl ++
@@ -281,10 +286,10 @@ Fixpoint no_nl (s : bytes) : bool :=
 
 (** * Reading the rollback statements of a liquibase changeset
 
-    Liquibase takes the rollback of a changeset from its "--rollback: " comment lines, in file
-    order, and rolls changesets back from the last to the first.  [lq_rollbacks] is that reader for
-    the text of one changeset: the lines starting with "--rollback: ", without the prefix and
-    without one trailing ";". *)
+    Liquibase takes the rollback of a changeset from its "--rollback: " comment lines: their
+    contents, joined line by line, are one SQL script, split at the ";" that end a line; changesets
+    are rolled back from the last to the first.  [lq_rollbacks] is that reader for the text of one
+    changeset. *)
 Fixpoint lines_go (acc : bytes) (s : bytes) : list bytes :=
   match s with
   | [] => [List.rev acc]
@@ -299,17 +304,10 @@ Fixpoint has_prefix (s p : bytes) {struct p} : bool :=
   | _ :: _, [] => false
   end.
 
-(** strings.TrimSuffix(l, ";") *)
-Definition trim_semi (l : bytes) : bytes :=
-  match List.rev l with
-  | c :: r => if N.eqb c 59 then List.rev r else l
-  | [] => l
-  end.
-
-Definition lq_rollback_of_line (l : bytes) : list bytes :=
-  if has_prefix l s_lq_rollback then [trim_semi (skipn (length s_lq_rollback) l)] else [].
+Definition lq_rollback_content (l : bytes) : list bytes :=
+  if has_prefix l s_lq_rollback then [skipn (length s_lq_rollback) l] else [].
 Definition lq_rollbacks (changeset : bytes) : list bytes :=
-  flat_map lq_rollback_of_line (lines changeset).
+  line_scan (concat (map (fun l => l ++ s_nl) (flat_map lq_rollback_content (lines changeset)))).
 
 (** the texts of the changesets of a file, in file order *)
 Fixpoint lq_changeset_texts (now : bytes) (index : nat) (changes : list mchange) : list bytes :=
